@@ -143,6 +143,8 @@ def real_traces(groups, rng, tier, modes=('keygen', 'std', 'safe'), kms=None):
                 # the same group as a functools.partial that binds the defaulted keyword-only parameter, as a method
                 # (ignore=('self', ...)), and with a single-element ignore specification passed bare
                 rot = (n + gi) % (1 if tier == 'thorough' else 4) == 0
+                if g.get('plainonly'):
+                    rot = False          # (a keyword called self cannot be passed to a method: plain functions only)
                 if rot and ((g['sid'] % 48) // 8) % 3 == 2:
                     jobs.append((g, km, mode, dict(v, kind='partial')))
                 # ... and as a functools.partial that presets a keyword which the function only collects in **kw
@@ -293,6 +295,8 @@ def check_generic(pid, tier, igns, modes=('keygen', 'std', 'safe'), pvals=None, 
         cat_states += stx
         for g in gx:
             g['allkms'] = True
+            if 'self' in over.get('KwNames', ()):
+                g['plainonly'] = True
         groups += gx
     # real side, in batches of groups (a thorough run has tens of thousands of traces)
     acc = {}
@@ -317,11 +321,14 @@ def extra_for_C01(rep, tier):
     groups, cat_states = tlc_catalogue(consts, work)
     # one tuple argument against the same values passed separately; a positional string equal to a keyword name
     for over in (dict(SigIds={4, 5, 28}, PVals={1, 2, 10}, KwNames={'z'}, MAXP=2, MAXK=1),
-                 dict(SigIds={28, 29}, PVals={1, 6}, KwNames={'x', 'z'}, MAXP=2, MAXK=1)):
+                 dict(SigIds={28, 29}, PVals={1, 6}, KwNames={'x', 'z'}, MAXP=2, MAXK=1),
+                 dict(SigIds={25, 28}, PVals={1, 2}, KwNames={'self', 'func', 'ignored'}, MAXP=1, MAXK=1)):
         gx, stx = tlc_catalogue(dict(base_consts(tier, {0}), Deviations=set(), **over), work)
         cat_states += stx
         for g in gx:
             g['allkms'] = True
+            if 'self' in over.get('KwNames', ()):
+                g['plainonly'] = True
         groups += gx
     acc = {}
     step = 12 if tier == 'thorough' else max(1, len(groups))
@@ -336,7 +343,9 @@ def extra_for_C01(rep, tier):
 
 
 def check_C09(tier):
-    return check_generic('C09', tier, {0}, pvals=None if tier == 'thorough' else {1, 5})
+    # extra: keyword arguments that are called like the parameters of klepto's own functions (self, func, ignored)
+    return check_generic('C09', tier, {0}, pvals=None if tier == 'thorough' else {1, 5},
+                         extras=[dict(SigIds={25, 28, 30}, PVals={1, 2}, KwNames={'self', 'func', 'ignored'}, MAXP=1, MAXK=1)])
 
 
 def check_C10(tier):
